@@ -951,7 +951,7 @@ def replace_zero(x, val):
 def array_from_args_gradmaker(argnum, ans, args, kwargs):
     # ndmin may have prepended axes of length one to the stacked result
     extra = anp.ndim(ans) - anp.ndim(args[argnum]) - 1
-    return lambda g: g[(0,) * extra + (argnum - 2,)]
+    return lambda g: match_complex(args[argnum], g[(0,) * extra + (argnum - 2,)])
 
 
 defvjp_argnum(anp.array_from_args, array_from_args_gradmaker)
